@@ -28,7 +28,15 @@ EXPLANATION = (
     "their parameters bound; `self.tunnel_community` / `self.hops` defined as read-only properties over a state-holder object denote "
     "what their getters return, and methods of a holder whose class is certain (every store of the field is `self.f = Ctor(...)` of one "
     "class without subclasses) are executed; sizes derived by len() / struct.calcsize / Struct.size / digest_size are folded; "
-    "all((a, b, ..)) / any([..]) over a literal is the and- / or-chain of its elements. Every completing path of Community.__init__ "
+    "all((a, b, ..)) / any([..]) over a literal is the and- / or-chain of its elements. A handler that names only PRIVATE exception "
+    "classes (pure exception classes whose name or module starts with an underscore and whose every spelling in the repository is the "
+    "definition, `raise X` / `raise X(..)`, an except type or a from-import; handlers only read fields of the object) is entered only "
+    "from `raise` statements the execution reached itself, with the facts of that path - provided every function out of which such an "
+    "exception can propagate is a plain synchronous function whose name is only ever the callee of a direct call and every call by "
+    "those names was entered (checked after the run; otherwise the over-approximation `any statement of the try may reach any "
+    "handler` is kept). Objects of private plain classes / non-frozen dataclasses made by the executed code have an identity: a "
+    "field store is seen by later reads through every alias on that path, and once the object was handed to code that is not executed "
+    "its fields are unknown. Every completing path of Community.__init__ "
     "on which settings.anonymize was tested truthy either calls set_anonymity(self._prefix, True) on self.endpoint or failed a pure type "
     "test of self.endpoint. Closed caller sets: raw "
     "endpoint.send inside TunnelEndpoint (or in helpers only send reaches), no `.endpoint.endpoint` / "
@@ -830,6 +838,9 @@ class _Interp:
         self._rec_classes = {}              # classes of which the executed code made an instance: name -> ClassInfo
         self._body_ran = False
         self._bodies = set()                # functions under followed decorators: the wrapper the decorators return calls their body
+        self._calls_seen = {}               # call site -> [name of the callee, times evaluated, times its body was entered]
+        self._cw_used = set()               # names of functions whose calls must all have been entered (closed-world exception argument)
+        self._cw_off = bool(_os.environ.get("C07_CW_OFF"))
 
     # ---------------------------------------------------------------- hooks for the client
     def follow(self, fi) -> bool:           # may the body of this callee be executed?
@@ -845,6 +856,8 @@ class _Interp:
         return None
 
     def on_unknown_call(self, c, fv, args, kwargs, st):
+        for a in [fv, *args, *((kwargs or {}).values())]:
+            self.escapes(a, st)
         st.epoch += 1
         st.qver += 1
         st.heap.clear()
@@ -1131,6 +1144,7 @@ class _Interp:
         """an expression that is not evaluated structurally: only the calls hidden in it matter"""
         for n in ast.walk(e):
             if isinstance(n, ast.Call):
+                self.count_call(n, 1)
                 self.on_opaque_call(n, st)
         return [(self.unknown(), st)]
 
@@ -1346,7 +1360,37 @@ class _Interp:
             return None
         return conv(expr)
 
+    def record_ids(self, v, depth: int = 6):
+        """identities of the self-made objects (see record / instantiate) a value is or contains"""
+        if type(v) is not tuple or not v or v[0] == "const" or depth <= 0:
+            return
+        if v[0] == "record" and len(v) > 3:
+            yield v[3]
+        if v[0] == "closure" and len(v) > 2:
+            for x in (self.cenv.get(v[2]) or {}).values():
+                yield from self.record_ids(x, depth - 1)
+        for x in v:
+            if type(x) is tuple:
+                yield from self.record_ids(x, depth - 1)
+
+    def escapes(self, v, st) -> None:
+        """v is handed to code that is not executed here / stored where such code finds it: fields of self-made objects in it may change"""
+        if v is None:
+            return
+        for ident in list(self.record_ids(v)):
+            if (ident, "#escaped") in st.objs:
+                continue
+            st.objs[(ident, "#escaped")] = ("const", True)
+            for (b, a), val in list(st.objs.items()):
+                if b == ident and a != "#escaped":
+                    self.escapes(val, st)           # what the object holds is reachable too
+
     def read_attr(self, base, name, st):
+        if base[0] == "record" and len(base) > 3:
+            if (base[3], "#escaped") in st.objs and self._rec_classes.get(base[1]) is not None and self._rec_classes[base[1]].lookup(name) is None:
+                return self.unknown()
+            if (base[3], name) in st.objs:
+                return st.objs[(base[3], name)]
         key = (_strip(base), name)
         if key in st.heap:
             return st.heap[key]
@@ -1757,6 +1801,7 @@ class _Interp:
         return out
 
     def call(self, c, fv, args, kwargs, st):  # noqa: C901, PLR0911, PLR0912
+        self.count_call(c, 1)
         lazy = fv[0] in ("closure", "func", "bound") or (fv[0] == "global" and fv[1] in ("iter", "next", "reversed", "enumerate", "filter", "map", "zip", "cast")) \
             or (fv[0] == "attr" and _strip(fv[1]) == _SELF and self.cls is not None and self.cls.lookup(fv[2]) is not None and self.follow(self.cls.lookup(fv[2])))
         std = self.stdlib_name(fv, st) if fv[0] in ("global", "attr") else None
@@ -1949,6 +1994,13 @@ class _Interp:
         return any(isinstance(d, ast.Call) and (chain(d.func) or "").split(".")[-1] == "dataclass"
                    and any(k.arg == "frozen" and const_value(k.value) is True for k in d.keywords) for d in ci.node.decorator_list)
 
+    def mutable_record_class(self, ci) -> bool:
+        """a plain dataclass (see plain_record_class) that is not frozen, has no subclasses and no hooks on attribute access"""
+        if "NamedTuple" in ci.base_names or not self.plain_record_class(ci) or self.immutable_record_class(ci) or ci.all_subclasses() \
+                or {"__getattr__", "__getattribute__", "__setattr__", "__delattr__"} & set(ci.methods):
+            return False
+        return not any(isinstance(d, ast.Call) and any(k.arg == "frozen" for k in d.keywords) for d in ci.node.decorator_list)
+
     def plain_class(self, ci) -> bool:
         init = ci.methods.get("__init__")
         return not (init is None or [b for b in ci.base_names if b != "object"]
@@ -1981,6 +2033,9 @@ class _Interp:
                     continue
                 vals[f] = ("const", cv)
         self._rec_classes[ci.name] = ci
+        if self.mutable_record_class(ci):
+            # an object whose fields may be assigned later: it has an identity, and st.objs holds what was stored since (see assign)
+            return ("record", ci.name, tuple((f, vals[f]) for f in fields), ("id", self.uid()))
         return ("record", ci.name, tuple((f, vals[f]) for f in fields))
 
     def exception_class(self, ci) -> bool:
@@ -2173,7 +2228,10 @@ class _Interp:
             fields = tuple((a, val) for (b, a), val in s.objs.items() if b == obj)
             for f, _ in fields:
                 s.heap.pop((obj, f), None)
-            out.append((("record", ci.name, fields), s))
+            if ci.all_subclasses() or "__delattr__" in ci.methods:
+                out.append((("record", ci.name, fields), s))
+            else:
+                out.append((("record", ci.name, fields, ("id", obj[1])), s))
         return out
 
     def bind(self, fnode, recv, args, kwargs, st):
@@ -2222,6 +2280,8 @@ class _Interp:
             raise _Und(f"recursive or too deep call of {getattr(fnode, 'name', 'lambda')}")
         env = self.bind(fnode, recv, args, kwargs, st)
         self.entered.add(id(fnode))
+        if not _is_generator(fnode) and not isinstance(fnode, ast.Lambda):
+            self.count_call(c, 2)
         if isinstance(fnode, ast.Lambda):
             fi = _LambdaInfo(fnode, st.frames[-1].fi)
         if _is_generator(fnode):
@@ -2339,13 +2399,23 @@ class _Interp:
         elif isinstance(t, ast.Attribute):
             for b, s in self.ev(t.value, st)[:1]:
                 if b[0] == "record":
-                    raise _Und(f"field `{t.attr}` of a local object is rebound")
+                    # an object the executed code made itself (it has an identity): the store is seen by every later read through any
+                    # alias of the object on this path; once the object was handed to code that is not executed here, nothing is known
+                    ci = self._rec_classes.get(b[1])
+                    if len(b) < 4 or ci is None or ci.lookup(t.attr) is not None or t.attr.startswith("__"):
+                        raise _Und(f"field `{t.attr}` of a local object is rebound")
+                    s.objs[(b[3], t.attr)] = v
+                    self.on_store(t, b, t.attr, v, s)
+                    continue
+                self.escapes(v, s)
                 s.heap[(_strip(b), t.attr)] = v
                 if b[0] == "obj":
                     s.objs[(b, t.attr)] = v
                 self.on_store(t, b, t.attr, v, s)
         elif isinstance(t, ast.Subscript):
             for vals, s in self.ev_seq([t.value, t.slice], st)[:1]:
+                if not _local_container(vals[0]):
+                    self.escapes(v, s)
                 self.on_store(t, vals[0], vals[1], v, s)
         elif isinstance(t, ast.Starred):
             self.assign(t.value, self.unknown(), st)
@@ -2667,6 +2737,199 @@ class _Interp:
         elif key in (("const", 0), ("const", -1)):
             self.assume(base, False, st)
 
+    # ---------------------------------------------------------------- private exception classes: closed world
+    def count_call(self, c, slot: int) -> None:
+        if c is None:
+            return
+        rec = self._calls_seen.get(id(c))
+        if rec is None:
+            f = getattr(c, "func", None)
+            rec = self._calls_seen[id(c)] = [f.attr if isinstance(f, ast.Attribute) else f.id if isinstance(f, ast.Name) else None, 0, 0]
+        rec[slot] += 1
+
+    def cw_handler(self, fi, h) -> bool:
+        """
+        `except X [, Y ...]` where every class named is a private exception class of the repository for which the closed-world
+        argument holds (closed_world): such an exception exists only where a `raise X(...)` statement made it, so the handler is
+        entered only from a `raise` the interpreter executed itself - or from a call it did not enter that can reach one (checked
+        after the run, see start: the names closed_world returns must not be among the calls that were not entered).
+        """
+        key = ("cw-handler", id(h))
+        if key not in self._globals:
+            names = None
+            if h.type is not None and all(isinstance(e, ast.Name) for e in (h.type.elts if isinstance(h.type, ast.Tuple) else [h.type])):
+                names = self.closed_world(getattr(fi, "module", None), _handler_types(h.type))
+            self._globals[key] = names
+        names = self._globals[key]
+        if names is None:
+            return False
+        self._cw_used |= names
+        return True
+
+    def _mentions(self, name: str):
+        """every node of the repository that spells `name`: identifiers, attribute names, string constants, import aliases, definitions"""
+        key = ("mentions", name)
+        if key not in self._globals:
+            out = []
+            for m in self.repo.modules.values():
+                if name not in m.src and not any(name == f.name for f in m.all_functions):
+                    continue
+                for n in ast.walk(m.tree):
+                    if (isinstance(n, ast.Name) and n.id == name) or (isinstance(n, ast.Attribute) and n.attr == name) \
+                            or (isinstance(n, ast.Constant) and n.value == name and isinstance(n.value, str)) \
+                            or (isinstance(n, ast.alias) and (n.name == name or n.asname == name or n.name.endswith("." + name))) \
+                            or (isinstance(n, (ast.FunctionDef, ast.AsyncFunctionDef, ast.ClassDef)) and n.name == name) \
+                            or (isinstance(n, ast.arg) and n.arg == name) or (isinstance(n, ast.keyword) and n.arg == name) \
+                            or (isinstance(n, (ast.Global, ast.Nonlocal)) and name in n.names) \
+                            or (isinstance(n, ast.ExceptHandler) and n.name == name) \
+                            or (isinstance(n, (ast.MatchAs, ast.MatchStar)) and n.name == name) or (isinstance(n, ast.MatchMapping) and n.rest == name):
+                        out.append((m, n))
+            self._globals[key] = out
+        return self._globals[key]
+
+    def closed_world(self, module, types):  # noqa: C901, PLR0911, PLR0912, PLR0915
+        """
+        The classes named by `types` (resolved in `module`) and their subclasses are PRIVATE exception classes - pure exception classes
+        (exception_class) whose name or defining module starts with an underscore - and every spelling of their names in the repository
+        is a class definition of the family, `raise X` / `raise X(...)`, a type of an `except` clause, or a plain from-import. Then
+        objects of these classes are made only by those raise statements and immediately thrown; a handler that catches one either
+        binds no name or reads fields of the object only (so no object is kept and thrown again elsewhere), or its function is treated
+        as raising it. Returns the names of the functions out of which such an exception can propagate: functions with a raise site /
+        a call by one of those names that is not enclosed in a try that catches the whole family without raising in the handler. These
+        functions are plain synchronous functions (no generator, coroutine, property or other decorator, no special method) and their
+        names are spelled only as the callee of direct calls (never taken as values, never in strings), so they run only when a call
+        spells their name. None = the argument is not established (the caller keeps the over-approximation).
+        """
+        if module is None or not types:
+            return None
+        key = ("closed-world", id(module), tuple(sorted(types)))
+        if key in self._globals:
+            return self._globals[key]
+        self._globals[key] = None
+        family = []
+        for t in types:
+            ci = self.repo.resolve_name(module, t)
+            if not hasattr(ci, "methods") or not hasattr(ci, "all_subclasses"):
+                return None
+            for x in [ci, *ci.all_subclasses()]:
+                if not any(x is y for y in family):
+                    family.append(x)
+        fam_names = {x.name for x in family}
+        for x in family:
+            base = x.module.relpath.rsplit("/", 1)[-1]
+            if not self.exception_class(x) or not (x.name.startswith("_") or base.startswith("_")) or x.name.startswith("__") \
+                    or enclosing_function(x.node) is not None:
+                return None
+        raises = []
+        for name in fam_names:
+            for _, n in self._mentions(name):
+                p = parent(n)
+                if isinstance(n, ast.ClassDef):
+                    if not any(n is x.node for x in family):
+                        return None
+                elif isinstance(n, ast.alias):
+                    if not isinstance(p, ast.ImportFrom) or n.asname is not None or n.name != name:
+                        return None
+                elif not isinstance(n, ast.Name) or not isinstance(n.ctx, ast.Load):
+                    return None
+                elif isinstance(p, ast.Raise) and p.exc is n:
+                    raises.append(p)
+                elif isinstance(p, ast.Call) and p.func is n and isinstance(parent(p), ast.Raise) and parent(p).exc is p:
+                    raises.append(parent(p))
+                elif isinstance(p, ast.ExceptHandler) and p.type is n:
+                    pass
+                elif isinstance(p, ast.Tuple) and isinstance(parent(p), ast.ExceptHandler) and parent(p).type is p:
+                    pass
+                elif isinstance(p, ast.ClassDef) and n in p.bases and any(p is x.node for x in family):
+                    pass
+                else:
+                    return None
+
+        def covers(h) -> bool:
+            if h.type is None:
+                return True
+            ts = set(_handler_types(h.type))
+            if ts & {"Exception", "BaseException"}:
+                return True
+            return all(any(c.name in ts for c in x.mro()) for x in family)
+
+        def handler_ok(h) -> bool:
+            """the handler does not keep the exception object: the bound name is only read for its fields (or handed to the logger)"""
+            if not h.name:
+                return True
+            private = h.type is not None and set(_handler_types(h.type)) <= fam_names
+            for x in ast.walk(h):
+                if isinstance(x, ast.Name) and x.id == h.name:
+                    p = parent(x)
+                    if isinstance(p, ast.Attribute) and p.value is x and isinstance(p.ctx, ast.Load) and not p.attr.startswith("__") \
+                            and not (isinstance(parent(p), ast.Call) and parent(p).func is p):
+                        continue
+                    if not private and isinstance(p, ast.Call) and x in p.args and (chain(p.func) or "").startswith(_LOG_PREFIX):
+                        continue
+                    return False
+            return True
+
+        def fate(node):
+            """"caught" / "out" (propagates out of the enclosing function) / None (undecided) for an exception thrown at node"""
+            child = node
+            for a in ancestors(node):
+                if isinstance(a, (ast.FunctionDef, ast.AsyncFunctionDef)):
+                    return "out"
+                if isinstance(a, (ast.Lambda, ast.ClassDef)) or type(a).__name__ == "TryStar":
+                    return None
+                if isinstance(a, ast.Try) and any(child is b for b in a.body):
+                    for h in a.handlers:
+                        if covers(h):
+                            if not handler_ok(h):
+                                return None
+                            if any(isinstance(x, ast.Raise) for x in ast.walk(h)):
+                                break               # may be thrown again: look further out
+                            return "caught"
+                        if h.type is not None and set(_handler_types(h.type)) & fam_names and not handler_ok(h):
+                            return None
+                child = a
+            return None
+
+        out_funcs, work = [], []
+
+        def thrown_at(node) -> bool:
+            f = fate(node)
+            if f is None:
+                return False
+            if f == "out":
+                g = enclosing_function(node)
+                if not any(g is x for x in out_funcs):
+                    out_funcs.append(g)
+                    work.append(g)
+            return True
+
+        for r in raises:
+            if not thrown_at(r):
+                return None
+        while work:
+            g = work.pop()
+            if len(out_funcs) > 12 or not isinstance(g, ast.FunctionDef) or _is_generator(g) or g.name.startswith("__") \
+                    or any((chain(d) or "?") not in ("staticmethod", "classmethod") for d in g.decorator_list):
+                return None
+            sites = self._mentions(g.name)
+            if len(sites) > 60:
+                return None
+            for _, n in sites:
+                p = parent(n)
+                if isinstance(n, ast.FunctionDef):
+                    continue                # this function, or another one of the same name (a call by that name counts for both)
+                if isinstance(n, ast.alias):
+                    if not isinstance(p, ast.ImportFrom) or n.asname is not None or n.name != g.name:
+                        return None
+                    continue
+                if not isinstance(n, (ast.Name, ast.Attribute)) or not isinstance(n.ctx, ast.Load) or not isinstance(p, ast.Call) or p.func is not n:
+                    return None
+                if not thrown_at(p):
+                    return None
+        names = frozenset(g.name for g in out_funcs)
+        self._globals[key] = names
+        return names
+
     def run(self, st):
         """all paths of the function in the top frame of st: [("return" | "raise", state)]"""
         fr = st.frames[-1]
@@ -2709,6 +2972,10 @@ class _Interp:
                     targets = [v for v, lab in node.succ if lab is None]
                 else:
                     targets = [v for v, lab in node.succ if lab is sel]
+                if sel == "exc" and s2.exc_from is not None and s2.exc_value is None and not self._cw_off:
+                    # an exception nobody saw being raised (from code that is not executed here) does not enter a handler that names
+                    # only private exception classes whose every `raise` is in executed code (see closed_world)
+                    targets = [v for v in targets if not (v.kind == "handler" and self.cw_handler(fr.fi, v.ast))]
                 for i, v in enumerate(targets):
                     work.append((v, s2 if i == len(targets) - 1 else s2.fork()))
         return out
@@ -2800,6 +3067,20 @@ class _Interp:
         return out
 
     def start(self):
+        """
+        All paths of the analysed function. When the closed-world exception argument was used (cw_handler) and afterwards a call that
+        may reach one of the `raise` sites it relies on turns out not to have been executed here, everything is redone without it.
+        """
+        snap = {k: (v.copy() if isinstance(v, (dict, list, set)) else v) for k, v in self.__dict__.items()}
+        outs = self.start_once()
+        if self._cw_used and self._cw_used & {n for n, seen, entered in self._calls_seen.values() if seen > entered}:
+            self.__dict__.clear()
+            self.__dict__.update(snap)
+            self._cw_off = True
+            outs = self.start_once()
+        return outs
+
+    def start_once(self):
         st = _St()
         fr = _Frame(self.top)
         for p in self.top.params():
